@@ -7,7 +7,7 @@ HOOKS = {
     "add_only": True,
 }
 ENGINES = [
-    {"name": "grid", "path": "/verif/mc/props", "serves_properties": ["C01", "C02", "C04", "C05", "C06", "C07", "C12", "C15", "C16", "C17"],
+    {"name": "grid", "path": "/verif/mc/props", "serves_properties": ["C01", "C02", "C04", "C05", "C06", "C07", "C12", "C14", "C15", "C16", "C17"],
      "kind_free_text": "complete Cartesian products of finite input alphabets executed on the real code and compared with an explicit oracle or metamorphic relation"},
     {"name": "fault", "path": "/verif/mc/props/C08.py", "serves_properties": ["C08"],
      "kind_free_text": "fault-point enumerator: public-API fault menu x position and sys.settrace call-level injection, snapshot oracle"},
@@ -197,5 +197,16 @@ CHECKS["C15"] = dict(
          "rows (scalar routines) and row by row; the call must return within 10 s with the documented shape and finite values.",
     note="Non-finite values are accepted only at the Dipole position, vertices of Triangle-based sources and within 1e-100 of a 1/r^3 or "
          "1/d singularity. A timeout kills only that case.")
+CHECKS["C14"] = dict(
+    engine="grid", level="exploration", design_ref="DESIGN.md §4 C14",
+    technique="bounded-exhaustive enumeration of (source x closed surface | closed loop) placements, integral laws evaluated by convergence-controlled composite Gauss-Legendre quadrature of the library's own output",
+    text="11 sources (6 magnet classes, Dipole, Circle, planar square and non-planar hexagon Polylines, a Collection of magnet + loop) x "
+         "closed surfaces (axis-aligned and rotated boxes, spheres; centred in the body, on its surface, outside; sizes 0.05/0.6/3(/100) "
+         "body sizes: inside the body, cutting its boundary, enclosing it, far) must have zero B-flux; closed loops (circles linking a "
+         "wire once and twice, unlinked, pentagons, circles passing through and lying inside magnets) must have H-circulation equal to "
+         "the linked current known from the construction.",
+    note="|I - expected| <= 10|I_N - I_2N| + floor(class)*integral|X| (+ node spacing term where the test surface cuts a body, because the "
+         "integrand jumps along a curve there); integrals that do not reach 1e-6 (smooth) / 1e-2 (cuts) are counted as "
+         "oracle_inconclusive. Cutting placements catch inside/outside inconsistencies (O(J*area)), smooth ones normalisation errors to 1e-6.")
 _todo = "check not built yet in this session (planned, see DESIGN.md §4); nothing is claimed for it"
 NOT_APPLICABLE = [{"property_id": f"C{i:02d}", "reason": _todo} for i in range(1, 21) if f"C{i:02d}" not in CHECKS]
